@@ -45,6 +45,8 @@ type Profile struct {
 	SmallMem                                                 bool // memtables small enough to rotate within a run
 	Compaction                                               bool // compaction workers are part of the scenario
 	Clock                                                    bool // clock jumps are part of the schedule
+	WBatch, WSub, WSeq, WMerge                               int  // weights of the extra op kinds
+	NoIter                                                   bool
 }
 
 func genConfig(t *rapid.T, p *Profile) Config {
@@ -242,6 +244,60 @@ func genClient(t *rapid.T, p *Profile, cfg *Config, nkeys, maxOps int) []Op {
 		type choice struct {
 			w int
 			k string
+		}
+		// extra op kinds do not need a transaction slot
+		if tot := p.WBatch + p.WSub + p.WSeq + p.WMerge; tot > 0 && rapid.IntRange(0, 99).Draw(t, "extra") < 35 {
+			x := rapid.IntRange(0, tot-1).Draw(t, "extra_kind")
+			switch {
+			case x < p.WBatch:
+				nb := rapid.IntRange(1, 12).Draw(t, "batch_n")
+				var sub []Op
+				for i := 0; i < nb; i++ {
+					so := Op{K: "set", Key: rapid.IntRange(0, nkeys-1).Draw(t, "bkey"), Sz: genValSize(t, p, cfg)}
+					if rapid.IntRange(0, 4).Draw(t, "bdel") == 0 {
+						so.K = "del"
+					}
+					if p.Meta {
+						so.UM = byte(rapid.IntRange(0, 255).Draw(t, "bum"))
+					}
+					sub = append(sub, so)
+				}
+				ops = append(ops, Op{K: "batch", Sub: sub})
+			case x < p.WBatch+p.WSub:
+				if rapid.IntRange(0, 2).Draw(t, "sub_kind") > 0 {
+					np := rapid.IntRange(1, 2).Draw(t, "npat")
+					var sub []Op
+					for i := 0; i < np; i++ {
+						sub = append(sub, Op{Key: rapid.IntRange(0, nkeys-1).Draw(t, "pkey"), N: rapid.IntRange(0, 2).Draw(t, "plen"), S: rapid.IntRange(0, 3).Draw(t, "pignore")})
+					}
+					ops = append(ops, Op{K: "subscribe", Sub: sub})
+				} else {
+					ops = append(ops, Op{K: "unsubscribe"})
+				}
+			case x < p.WBatch+p.WSub+p.WSeq:
+				sl := rapid.IntRange(0, 1).Draw(t, "seq_slot")
+				switch rapid.IntRange(0, 5).Draw(t, "seq_op") {
+				case 0:
+					ops = append(ops, Op{K: "seq_get", S: sl, Key: rapid.IntRange(0, 1).Draw(t, "seq_key"), N: rapid.IntRange(1, 4).Draw(t, "seq_bw")})
+				case 1:
+					ops = append(ops, Op{K: "seq_release", S: sl})
+				default:
+					ops = append(ops, Op{K: "seq_next", S: sl})
+				}
+			default:
+				sl := rapid.IntRange(0, 1).Draw(t, "merge_slot")
+				switch rapid.IntRange(0, 7).Draw(t, "merge_op") {
+				case 0:
+					ops = append(ops, Op{K: "merge_start", S: sl, Key: rapid.IntRange(0, 1).Draw(t, "merge_key"), N: rapid.SampledFrom([]int{10, 50, 1000}).Draw(t, "merge_dur")})
+				case 1:
+					ops = append(ops, Op{K: "merge_stop", S: sl})
+				case 2, 3:
+					ops = append(ops, Op{K: "merge_get", S: sl})
+				default:
+					ops = append(ops, Op{K: "merge_add", S: sl, Sz: rapid.SampledFrom([]int{0, 12, 40}).Draw(t, "merge_sz")})
+				}
+			}
+			continue
 		}
 		cs := []choice{{p.WGet, "get"}, {p.WIter, "iter"}}
 		if slots[s] == 2 {
